@@ -73,7 +73,8 @@ theorem tsc_cons (max : Nat) (e : Ev α β) (l : List (Ev α β)) (h : ∀ x1 x2
   | x1 :: x2 :: x3 :: t, h =>
     have hne := h x1 x2 _ rfl
     rw [takeSelfCompletion]
-    simp
+    · simp
+    all_goals (intro hx; exact absurd hx hne)
 
 theorem tsc_sink (max : Nat) (e3 e2 : Ev α β) (t : List (Ev α β)) :
     takeSelfCompletion max (e3 :: e2 :: ST :: .inp (.sinkUp 0 .term) :: t)
